@@ -266,7 +266,8 @@ class MonitoredSet(MonitoredContainer, set):
 
     def update(self, *values):
         for iterable in values:
-            for value in iterable:
+            # copy first: the iterable may be a managed set that the inference of the first value changes
+            for value in list(iterable):
                 self._add_item(value)
 
     def _add_item(
